@@ -14,7 +14,10 @@ import (
 
 // UDef is one freshly defined type: a standard class, a flavor, a condition
 // or a structure, with its direct supertypes among the earlier definitions
-// of the same case (most specific first).
+// of the same case (most specific first). A name that was defined earlier in
+// the case is a REDEFINITION (standard classes and conditions only: flavors
+// refuse it and the language leaves redefined structures undefined): its
+// supertypes are then among the names first defined before it.
 type UDef struct {
 	Name   string   `json:"name"`
 	Meta   string   `json:"meta"` // class flavor cond struct
@@ -67,7 +70,34 @@ var metaBase = map[string][]string{
 func genUser(r *rand.Rand, tag int) Case {
 	meta := fw.Pick(r, userMetas)
 	n := 2 + r.IntN(5)
-	return Case{Kind: "user", I: tag, Defs: userDefs(r, meta, n, fmt.Sprintf("c16u%d", tag))}
+	defs := userDefs(r, meta, n, fmt.Sprintf("c16u%d", tag))
+	if (meta == "class" || meta == "cond") && r.IntN(2) == 0 {
+		// a history: 1-3 of the types are defined again with other supertypes
+		for k := 1 + r.IntN(3); 0 < k; k-- {
+			j := r.IntN(n)
+			d := UDef{Name: defs[j].Name, Meta: meta}
+			maxSup := 2
+			if meta == "cond" {
+				maxSup = 1
+			}
+			if 0 < j {
+				picked := map[int]bool{}
+				for ns := r.IntN(maxSup + 1); len(picked) < ns && len(picked) < j; {
+					picked[r.IntN(j)] = true
+				}
+				var idx []int
+				for i := range picked {
+					idx = append(idx, i)
+				}
+				sort.Sort(sort.Reverse(sort.IntSlice(idx)))
+				for _, i := range idx {
+					d.Supers = append(d.Supers, defs[i].Name)
+				}
+			}
+			defs = append(defs, d)
+		}
+	}
+	return Case{Kind: "user", I: tag, Defs: defs}
 }
 
 func userDefs(r *rand.Rand, meta string, n int, prefix string) []UDef {
@@ -115,8 +145,36 @@ func fixedUserCases() []Case {
 				{Name: p + "c-2", Meta: meta, Supers: []string{p + "c-0"}}, {Name: p + "c-3", Meta: meta, Supers: []string{p + "c-2", p + "c-1"}}}
 			cs = append(cs, Case{Kind: "user", I: 1000200 + mi, Defs: diamond})
 		}
+		if meta == "class" || meta == "cond" {
+			// define / use / redefine / use: the middle of a chain moves under
+			// another root, then loses its supertype, then gets the first one back
+			d := func(name string, supers ...string) UDef {
+				return UDef{Name: p + name, Meta: meta, Supers: prefixed(p, supers)}
+			}
+			cs = append(cs, Case{Kind: "user", I: 1000300 + mi, Defs: []UDef{d("d-0"), d("d-1"), d("d-2", "d-0"), d("d-3", "d-2"), d("d-4", "d-3"), d("d-2", "d-1")}})
+			cs = append(cs, Case{Kind: "user", I: 1000400 + mi, Defs: []UDef{d("e-0"), d("e-1", "e-0"), d("e-2", "e-1"), d("e-1")}})
+			cs = append(cs, Case{Kind: "user", I: 1000500 + mi, Defs: []UDef{d("f-0"), d("f-1"), d("f-2", "f-0"), d("f-3", "f-2"), d("f-2", "f-1"), d("f-2"), d("f-2", "f-0")}})
+			// the root of a chain is defined again unchanged
+			cs = append(cs, Case{Kind: "user", I: 1000600 + mi, Defs: []UDef{d("g-0"), d("g-1", "g-0"), d("g-2", "g-1"), d("g-0")}})
+		}
+		if meta == "class" {
+			d := func(name string, supers ...string) UDef {
+				return UDef{Name: p + name, Meta: meta, Supers: prefixed(p, supers)}
+			}
+			// a leaf gains a second supertype; a diamond loses one side
+			cs = append(cs, Case{Kind: "user", I: 1000700 + mi, Defs: []UDef{d("h-0"), d("h-1"), d("h-2", "h-0"), d("h-3", "h-2"), d("h-2", "h-1", "h-0")}})
+			cs = append(cs, Case{Kind: "user", I: 1000800 + mi, Defs: []UDef{d("i-0"), d("i-1", "i-0"), d("i-2", "i-0"), d("i-3", "i-2", "i-1"), d("i-4", "i-3"), d("i-3", "i-1")}})
+		}
 	}
 	return cs
+}
+
+func prefixed(p string, names []string) []string {
+	var out []string
+	for _, n := range names {
+		out = append(out, p+n)
+	}
+	return out
 }
 
 var userDefined = map[string]bool{}
@@ -129,41 +187,129 @@ func execUser(x *fw.Ctx, c Case) {
 	scope := slip.NewScope()
 	meta := c.Defs[0].Meta
 	x.Cover("user-meta:" + meta)
-	// the harness's own supertype relation: reflexive-transitive closure of the declared supers
-	index := map[string]int{}
+	// the harness's own supertype relation: reflexive-transitive closure of
+	// the declared supers, the LAST definition of a name counting
+	first := map[string]int{} // position of the first definition of a name
+	var names []string        // in order of first definition
+	final := map[string]UDef{}
+	redefs := 0
 	for k, d := range c.Defs {
-		index[d.Name] = k
-	}
-	anc := make([]map[string]bool, len(c.Defs))
-	for k, d := range c.Defs {
-		anc[k] = map[string]bool{d.Name: true}
+		if d.Meta != meta {
+			x.Trivial()
+			return
+		}
+		if _, seen := first[d.Name]; seen {
+			if meta != "class" && meta != "cond" {
+				x.Trivial() // only standard classes and conditions are redefinable
+				return
+			}
+			redefs++
+		} else {
+			first[d.Name] = k
+			names = append(names, d.Name)
+		}
 		for _, s := range d.Supers {
-			j, ok := index[s]
-			if !ok || k <= j || d.Meta != meta {
+			j, ok := first[s]
+			if !ok || first[d.Name] <= j { // supers come from names first defined earlier: no cycles
 				x.Trivial()
 				return
 			}
-			for a := range anc[j] {
-				anc[k][a] = true
+		}
+		final[d.Name] = d
+	}
+	ancOf := map[string]map[string]bool{}
+	for _, n := range names {
+		a := map[string]bool{n: true}
+		for _, s := range final[n].Supers {
+			for t := range ancOf[s] {
+				a[t] = true
 			}
 		}
+		ancOf[n] = a
+	}
+	if 0 < redefs {
+		x.Cover("user-history:with-redefinition")
+		x.CoverN("user-redefinitions:"+meta, redefs)
 	}
 	fail := func(check, format string, a ...any) {
 		x.Fail("user meta="+meta+" check="+check, format, a...)
 	}
+	// instances made before a later redefinition ("old" instances)
+	old := map[string]slip.Object{}
+	replayed := false
 	for k, d := range c.Defs {
-		if userDefined[d.Name] {
+		gk := fmt.Sprintf("%s#%d", d.Name, k)
+		if userDefined[gk] {
+			replayed = true
 			continue // replay in the same process
 		}
 		if _, err := sl.Eval(scope, d.src(k)); err != nil {
 			fail("define", "%s => %s", d.src(k), fmtErr(err))
 			return
 		}
-		userDefined[d.Name] = true
+		userDefined[gk] = true
 		x.Cover("user-defined:" + meta)
+		if first[d.Name] != k {
+			x.Cover("user-redefined:" + meta)
+		}
+		if 0 < redefs && first[d.Name] == k {
+			if inst, err := sl.Eval(scope, d.instSrc()); err == nil {
+				old[d.Name] = inst
+			}
+		}
+	}
+	if replayed {
+		old = map[string]slip.Object{}
+	}
+	// the definitions the checks below run over: one per name, the final one
+	var defs []UDef
+	anc := make([]map[string]bool, 0, len(names))
+	for _, n := range names {
+		defs = append(defs, final[n])
+		anc = append(anc, ancOf[n])
+	}
+	allDefs := c.Defs
+	c.Defs = defs
+	// an instance made before the redefinitions is an instance of the class as
+	// it is now (standard classes: the language definition has instances
+	// updated; conditions are only required to stay coherent, which the
+	// relation checks of the fresh instances and the registry cover)
+	if meta == "class" {
+		for k, d := range defs {
+			inst, has := old[d.Name]
+			if !has {
+				continue
+			}
+			scope.Let(symX, inst)
+			for _, e := range defs {
+				want := anc[k][e.Name]
+				v, terr := typepOf(scope, e.Name)
+				x.Cover("user-old-instance-typep-checked")
+				// what the real subtypep says about (type-of x) and the type
+				scope.Let(slip.Symbol("t2"), slip.Symbol(e.Name))
+				sres, serr := sl.Eval(scope, "(list (type-of x) (subtypep (type-of x) t2))")
+				sl2, _ := sres.(slip.List)
+				if serr != nil || len(sl2) != 2 {
+					continue
+				}
+				if ts, ok := sl2[0].(slip.Symbol); !ok || !strings.EqualFold(string(ts), d.Name) {
+					continue
+				}
+				sv, _ := truth(sl2[1])
+				if terr == nil && v != want && sv == want {
+					if want {
+						fail("typep-old-instance-ancestor", "x = an instance of %s made before %s was defined again: (type-of x) is %s and (subtypep '%s '%s) is t, but (typep x '%s) => nil [%s]",
+							d.Name, d.Name, d.Name, d.Name, e.Name, e.Name, defsSrc(allDefs))
+					} else {
+						fail("typep-old-instance-unrelated", "x = an instance of %s made before %s was defined again: (typep x '%s) => t, but (type-of x) is %s and (subtypep '%s '%s) is nil [%s]",
+							d.Name, d.Name, e.Name, d.Name, d.Name, e.Name, defsSrc(allDefs))
+					}
+				}
+			}
+		}
 	}
 	var defsText []string
-	for k, d := range c.Defs {
+	for k, d := range allDefs {
 		defsText = append(defsText, d.src(k))
 	}
 	ctx := strings.Join(defsText, " ")
@@ -260,4 +406,12 @@ func execUser(x *fw.Ctx, c Case) {
 		}
 	}
 	x.Observe(map[string]any{"definitions": defsText})
+}
+
+func defsSrc(defs []UDef) string {
+	var t []string
+	for k, d := range defs {
+		t = append(t, d.src(k))
+	}
+	return strings.Join(t, " ")
 }
